@@ -49,15 +49,30 @@ const HIST_KINDS: [&str; 8] = [
 /// The life-cycle scenario set shared by C02 / C05 / C08 (and monitored by C01, C06, C16).
 fn life_jobs(props: &[&'static str], thorough: bool, read_faults: bool) -> Vec<Job> {
     let mut v = Vec::new();
+    if thorough {
+        // The thorough tier = the quick tier's jobs as they are (with the preemption deviation `Park`), plus the
+        // deeper ones below ("/deep": one more deviation level, more stored histories, read faults, `Hold`) over
+        // environment events and run-queue orders only: a `Park` at every preemption point of every step of the
+        // deepest level triples the largest jobs and pushes four properties over the 40 min cap.
+        v = life_jobs(props, false, read_faults);
+    }
     let rf = |mut c: WCfg| {
         c.read_faults = read_faults && thorough;
         // thorough tier: one event may be held back so that it reaches the plugin together with the next one
         c.max_holds = if thorough { 1 } else { 0 };
+        if thorough {
+            c.max_parks = 0;
+            c.name = format!("{}/deep", c.name);
+        }
         c
     };
     // the small scenario first: under a time cap the cheap jobs are the ones that are certain to complete
-    v.push(w(scen::s_park(false), props, if thorough { 3 } else { 2 }, true));
-    if thorough {
+    if !thorough {
+        v.push(w(scen::s_park(false), props, 2, true));
+    } else {
+        let mut c = scen::s_park(false);
+        c.name = format!("{}/deep", c.name);
+        v.push(w(c, props, 3, true));
         v.push(w(scen::s_park(true), props, 2, true));
     }
     if !thorough {
@@ -104,7 +119,7 @@ pub fn jobs(id: &str, thorough: bool) -> Vec<Job> {
                     v.push(w(scen::s_hash(ht, it, two), p, if thorough { 3 } else { 2 }, false));
                 }
             }
-            v.extend(life_jobs(p, thorough, false).into_iter().take(if thorough { 100 } else { 2 }));
+            v.extend(life_jobs(p, thorough, false).into_iter().take(if thorough { 200 } else { 3 }));
             for k in ["pending-completepart", "succeeded", "pending-pendingpart"] {
                 v.push(w(scen::s_hist(k, 0, false), p, if thorough { 3 } else { 2 }, false));
             }
@@ -133,7 +148,7 @@ pub fn jobs(id: &str, thorough: bool) -> Vec<Job> {
                 c.max_holds = 1;
                 v.push(w(c, &["C06"], if thorough { 3 } else { 2 }, true));
             }
-            for j in life_jobs(&["C06"], thorough, true).into_iter().take(if thorough { 100 } else { 3 }) {
+            for j in life_jobs(&["C06"], thorough, true).into_iter().take(if thorough { 200 } else { 4 }) {
                 v.push(j);
             }
             v.push(Job::I {
@@ -239,7 +254,7 @@ pub fn jobs(id: &str, thorough: bool) -> Vec<Job> {
                     v.push(Job::P { cfg: c, bound: 1 });
                 }
             }
-            v.extend(life_jobs(&["C16"], thorough, false).into_iter().take(if thorough { 100 } else { 2 }));
+            v.extend(life_jobs(&["C16"], thorough, false).into_iter().take(if thorough { 200 } else { 3 }));
         }
         "C18" => v.push(Job::I {
             name: "I/C18-tlv",
